@@ -305,9 +305,10 @@ def rust_escape(s):
     return s.replace("\\", "\\\\").replace("\"", "\\\"").replace("\n", "\\n").replace("\t", "\\t").replace("\r", "\\r")
 
 
-def expand_format_string(lit, label):
-    """`format!` with inline arguments only: pieces of text and `{ident}` / `{ident:?}` holes."""
+def expand_format_string(lit, label, args=()):
+    """`format!`: pieces of text and `{ident}` / `{ident:?}` / positional `{}` / `{:?}` holes."""
     s = rust_unescape(lit, label)
+    args = list(args)
     pieces = []
     cur = ""
     i = 0
@@ -321,19 +322,27 @@ def expand_format_string(lit, label):
         elif s[i] == "{":
             j = s.index("}", i)
             hole = s[i + 1:j]
-            m = re.fullmatch(r"([A-Za-z_][A-Za-z0-9_]*)(:\?)?", hole)
+            m = re.fullmatch(r"([A-Za-z_][A-Za-z0-9_]*)?(:\?)?", hole)
             if not m:
                 raise Undecided(f"{label}: unsupported format hole {{{hole}}}")
             if cur:
                 pieces.append(f'fmt_lit("{rust_escape(cur)}")')
                 cur = ""
-            pieces.append(f"fmt_dbg(&{m.group(1)})" if m.group(2) else f"fmt_disp(&{m.group(1)})")
+            if m.group(1):
+                arg = m.group(1)
+            else:
+                if not args:
+                    raise Undecided(f"{label}: more positional holes than arguments in a format string")
+                arg = "(" + args.pop(0) + ")"
+            pieces.append(f"fmt_dbg(&{arg})" if m.group(2) else f"fmt_disp(&{arg})")
             i = j + 1
         elif s[i] == "}":
             raise Undecided(f"{label}: stray }} in a format string")
         else:
             cur += s[i]
             i += 1
+    if args:
+        raise Undecided(f"{label}: more arguments than positional holes in a format string")
     if cur or not pieces:
         pieces.append(f'fmt_lit("{rust_escape(cur)}")')
     e = pieces[0]
@@ -342,25 +351,63 @@ def expand_format_string(lit, label):
     return e
 
 
+def split_top_level_commas(text):
+    out, depth, cur, i = [], 0, "", 0
+    in_str = False
+    while i < len(text):
+        c = text[i]
+        if in_str:
+            cur += c
+            if c == "\\":
+                cur += text[i + 1]
+                i += 1
+            elif c == '"':
+                in_str = False
+        elif c == '"':
+            in_str = True
+            cur += c
+        elif c in "([{":
+            depth += 1
+            cur += c
+        elif c in ")]}":
+            depth -= 1
+            cur += c
+        elif c == "," and depth == 0:
+            out.append(cur.strip())
+            cur = ""
+        else:
+            cur += c
+        i += 1
+    if cur.strip():
+        out.append(cur.strip())
+    return out
+
+
 def expand_format_macros(text, label, names=("format",)):
-    """D6: every `format!("..")` (one string literal, inline arguments) -> fmt_cat / fmt_lit / fmt_disp chain."""
+    """D6: every `format!("..", args)` (one string literal, inline or positional arguments) -> fmt_cat / fmt_lit / fmt_disp chain;
+    `println!` / `print!` / `eprintln!` -> std_println(..) / std_print(..) / std_eprintln(..)."""
     n = 0
     for name in names:
         while True:
-            m = re.search(r"\b" + name + r"!\(\s*\"", text)
+            m = re.search(r"(?<![A-Za-z0-9_])" + name + r"!\(\s*\"", text)
             if not m:
                 break
+            op = text.index("(", m.start())
+            cp = extract.match_brace(text, op)
             q = m.end() - 1
             k = q + 1
             while text[k] != '"':
                 k += 2 if text[k] == "\\" else 1
-            m2 = re.match(r"\"\s*,?\s*\)", text[k:])
-            if not m2:
-                raise Undecided(f"{label}: `{name}!` with positional arguments is not supported")
-            e = expand_format_string(text[q + 1:k], label)
-            if name in ("println", "print"):
+            rest = text[k + 1:cp].strip()
+            args = []
+            if rest:
+                if not rest.startswith(","):
+                    raise Undecided(f"{label}: `{name}!` invocation has an unexpected shape")
+                args = split_top_level_commas(rest[1:])
+            e = expand_format_string(text[q + 1:k], label, args)
+            if name in ("println", "print", "eprintln"):
                 e = f"std_{name}({e})"
-            text = text[:m.start()] + e + text[k + m2.end():]
+            text = text[:m.start()] + e + text[cp + 1:]
             n += 1
     return text, n
 
